@@ -241,7 +241,7 @@ impl<'a> PGen<'a> {
         let x = self.atom(vars);
         let y = self.atom(vars);
         let k = self.rng.below(5);
-        match self.rng.below(8) {
+        match self.rng.below(12) {
             0 => format!(
                 "{{ unsigned v{u} = (unsigned)({x} * 7 + {y} + {k}) & 63u; int p{u} = 0, q{u} = 0; do {{ if (v{u} & 1u) p{u}++; else q{u}++; v{u} >>= 1; }} while (v{u}); r = (r + p{u} * 3 + q{u}) % 1000; }} g++;",
                 u = u, x = x, y = y, k = k
@@ -270,9 +270,26 @@ impl<'a> PGen<'a> {
                 "{{ int d{u} = 0; do {{ if ((d{u} + {x}) & 1) {{ g++; if (d{u} > 1) break; }} else r = (r + d{u}) % 1000; }} while (++d{u} < ({y} % 4) + 2); }} r = (r + 1) % 1000;",
                 u = u, x = x, y = y
             ),
-            _ => format!(
+            7 => format!(
                 "for (int i{u} = 0; i{u} < ({x} % 3) + 2; i{u}++) {{ int w{u} = i{u} + 1; while (w{u}-- > 0) {{ if ((w{u} + {y}) & 1) g++; else r = (r + 1) % 1000; }} }} g++;",
                 u = u, x = x, y = y
+            ),
+            // loops with two entries (irreducible): the cycle search needs its block lists
+            8 => format!(
+                "{{ int n{u} = ({x} % 4) + 2; switch ({y} & 1) {{ case 0: do {{ r = (r + 1) % 1000; case 1: g++; }} while (--n{u} > 0); }} }} g++;",
+                u = u, x = x, y = y
+            ),
+            9 => format!(
+                "{{ int n{u} = ({x} % 4) + 2; if ({y} & 1) goto M{u}; T{u}: r = (r + 1) % 1000; M{u}: g++; if (--n{u} > 0) goto T{u}; }} g++;",
+                u = u, x = x, y = y
+            ),
+            10 => format!(
+                "{{ int n{u} = ({x} % 3) + 2, m{u} = ({y} % 3) + 2; if ({y} & 2) goto B{u}; A{u}: r = (r + 1) % 1000; if (n{u}-- > 0) goto B{u}; goto E{u}; B{u}: g++; if (m{u}-- > 0) goto A{u}; if (n{u}-- > 0) goto B{u}; E{u}: g++; }} g++;",
+                u = u, x = x, y = y
+            ),
+            _ => format!(
+                "{{ int n{u} = ({x} % 3) + 3; switch (({y} + {k}) % 3) {{ case 0: while (n{u}-- > 0) {{ r = (r + 1) % 1000; case 1: if (n{u} & 1) g++; else {{ case 2: r = (r + 2) % 1000; }} }} }} }} g++;",
+                u = u, x = x, y = y, k = k
             ),
         }
     }
@@ -282,7 +299,7 @@ impl<'a> PGen<'a> {
 const CNT_MACRO: &str = "#define CNT(v, p, q) do { if ((v) & 1u) (p)++; else (q)++; (v) >>= 1; } while (v)";
 
 /// every one-line circuit shape in one fixed program (compiled and compared first on every run)
-const CIRCUIT_PROG: &str = "#include <stdlib.h>\nint g;\n#define CNT(v, p, q) do { if ((v) & 1u) (p)++; else (q)++; (v) >>= 1; } while (v)\nint f0(int a, int b) {\n  int r = 0;\n  { unsigned v = (unsigned)(a * 7 + b + 3) & 63u; int p = 0, q = 0; do { if (v & 1u) p++; else q++; v >>= 1; } while (v); r = (r + p * 3 + q) % 1000; } g++;\n  { unsigned v = (unsigned)(a * 5 + b) & 31u; int p = 0, q = 0; CNT(v, p, q); r = (r + p + 2 * q) % 1000; } g++;\n  for (int i = 0; i < (a % 5) + 2; i++) { if ((i + b) & 1) r = (r + 2) % 1000; else g++; } r = (r + 1) % 1000;\n  { int w = (a % 4) + 3; while (w-- > 0) { if ((w + b) % 3 == 0) continue; if (w & 1) g++; else r = (r + w) % 1000; } } g++;\n  return r;\n}\nint f1(int a, int b) {\n  int r = 0;\n  for (int i = 0; i < (a % 3) + 2; i++) for (int j = 0; j < (b % 3) + 1; j++) { if ((i ^ j) & 1) r = (r + 1) % 1000; else g++; } g++;\n  for (int i = 0; i < (a % 4) + 3; i++) { switch ((i + b) % 3) { case 0: r = (r + 1) % 1000; break; case 1: g++; default: r = (r + 2) % 1000; } } g++;\n  { int d = 0; do { if ((d + a) & 1) { g++; if (d > 1) break; } else r = (r + d) % 1000; } while (++d < (b % 4) + 2); } r = (r + 1) % 1000;\n  for (int i = 0; i < (a % 3) + 2; i++) { int w = i + 1; while (w-- > 0) { if ((w + b) & 1) g++; else r = (r + 1) % 1000; } } g++;\n  return r;\n}\nint main(int argc, char **argv) {\n  int a = argc > 1 ? atoi(argv[1]) : 0; int b = argc > 2 ? atoi(argv[2]) : 0;\n  int r = f0(a, b); if (a != 4) r += f1(b, a); for (int i = 0; i < 3; i++) { if ((i + a) & 1) r += f0(i, b) & 1; else g++; } g++;\n  return (r + g) & 1;\n}\n";
+const CIRCUIT_PROG: &str = "#include <stdlib.h>\nint g;\n#define CNT(v, p, q) do { if ((v) & 1u) (p)++; else (q)++; (v) >>= 1; } while (v)\nint f0(int a, int b) {\n  int r = 0;\n  { unsigned v = (unsigned)(a * 7 + b + 3) & 63u; int p = 0, q = 0; do { if (v & 1u) p++; else q++; v >>= 1; } while (v); r = (r + p * 3 + q) % 1000; } g++;\n  { unsigned v = (unsigned)(a * 5 + b) & 31u; int p = 0, q = 0; CNT(v, p, q); r = (r + p + 2 * q) % 1000; } g++;\n  for (int i = 0; i < (a % 5) + 2; i++) { if ((i + b) & 1) r = (r + 2) % 1000; else g++; } r = (r + 1) % 1000;\n  { int w = (a % 4) + 3; while (w-- > 0) { if ((w + b) % 3 == 0) continue; if (w & 1) g++; else r = (r + w) % 1000; } } g++;\n  return r;\n}\nint f1(int a, int b) {\n  int r = 0;\n  for (int i = 0; i < (a % 3) + 2; i++) for (int j = 0; j < (b % 3) + 1; j++) { if ((i ^ j) & 1) r = (r + 1) % 1000; else g++; } g++;\n  for (int i = 0; i < (a % 4) + 3; i++) { switch ((i + b) % 3) { case 0: r = (r + 1) % 1000; break; case 1: g++; default: r = (r + 2) % 1000; } } g++;\n  { int d = 0; do { if ((d + a) & 1) { g++; if (d > 1) break; } else r = (r + d) % 1000; } while (++d < (b % 4) + 2); } r = (r + 1) % 1000;\n  for (int i = 0; i < (a % 3) + 2; i++) { int w = i + 1; while (w-- > 0) { if ((w + b) & 1) g++; else r = (r + 1) % 1000; } } g++;\n  { int n = (a % 4) + 2; switch (b & 1) { case 0: do { r = (r + 1) % 1000; case 1: g++; } while (--n > 0); } } g++;\n  { int n = (b % 4) + 2; if (a & 1) goto M1; T1: r = (r + 1) % 1000; M1: g++; if (--n > 0) goto T1; } g++;\n  { int n = (a % 3) + 2, m = (b % 3) + 2; if (b & 2) goto B2; A2: r = (r + 1) % 1000; if (n-- > 0) goto B2; goto E2; B2: g++; if (m-- > 0) goto A2; if (n-- > 0) goto B2; E2: g++; } g++;\n  { int n = (a % 3) + 3; switch ((b + 1) % 3) { case 0: while (n-- > 0) { r = (r + 1) % 1000; case 1: if (n & 1) g++; else { case 2: r = (r + 2) % 1000; } } } } g++;\n  return r;\n}\nint main(int argc, char **argv) {\n  int a = argc > 1 ? atoi(argv[1]) : 0; int b = argc > 2 ? atoi(argv[2]) : 0;\n  int r = f0(a, b); if (a != 4) r += f1(b, a); for (int i = 0; i < 3; i++) { if ((i + a) & 1) r += f0(i, b) & 1; else g++; } g++;\n  return (r + g) & 1;\n}\n";
 
 
 struct Program {
@@ -582,6 +599,12 @@ fn count_line_shapes(
                 if sh.executed_cycle {
                     rep.count(&format!("{}.lines.multi_block_with_executed_cycle", stream));
                 }
+                if fns.iter().any(|f| &f.file == k && f.line_irreducible(*l)) {
+                    rep.count(&format!("{}.lines.multi_block_irreducible", stream));
+                    if tn == n {
+                        rep.count(&format!("{}.lines.multi_block_irreducible.equal_to_llvm_cov", stream));
+                    }
+                }
                 if sh.two_paths {
                     rep.count(&format!("{}.lines.multi_block_cycle_two_executed_paths", stream));
                     if tn == n {
@@ -593,12 +616,52 @@ fn count_line_shapes(
     }
 }
 
+/// Named finding matcher `C08-irreducible-line-cycles`: every difference is the count of a line
+/// whose blocks, in some function, contain a loop with two entries (irreducible region). There
+/// the decomposition of the arc counts into circuits is not unique: grcov enumerates elementary
+/// circuits (`look_for_circuit`, the algorithm of gcc's gcov), llvm-cov 12+ cancels cycles found
+/// by depth-first search, and the two sums can differ. (Structured C gives reducible graphs; a
+/// `goto` or a `case` label inside a loop body can produce such a region.)
+fn matches_irreducible(
+    ours: &BTreeMap<String, GcovFile>,
+    theirs: &BTreeMap<String, GcovFile>,
+    fns: &[FnDump],
+) -> bool {
+    if ours.keys().ne(theirs.keys()) {
+        return false;
+    }
+    let mut any = false;
+    for (k, o) in ours {
+        let t = &theirs[k];
+        if o.lines.keys().ne(t.lines.keys()) {
+            return false;
+        }
+        let fo: Vec<(&String, bool)> = o.funcs.iter().map(|(n, c)| (n, *c > 0)).collect();
+        let ft: Vec<(&String, bool)> = t.funcs.iter().map(|(n, c)| (n, *c > 0)).collect();
+        if fo != ft {
+            return false;
+        }
+        for (l, n) in &o.lines {
+            if t.lines[l] == *n {
+                continue;
+            }
+            any = true;
+            if !fns.iter().any(|f| &f.file == k && f.line_irreducible(*l)) {
+                return false;
+            }
+        }
+    }
+    any
+}
+
 fn classify(
     ours: &BTreeMap<String, GcovFile>,
     theirs: &BTreeMap<String, GcovFile>,
     fns: &[FnDump],
 ) -> Option<&'static str> {
-    if matches_inflow_outflow(ours, theirs, fns) {
+    if matches_irreducible(ours, theirs, fns) {
+        Some("C08-irreducible-line-cycles")
+    } else if matches_inflow_outflow(ours, theirs, fns) {
         Some("C08-single-block-line-outflow")
     } else if matches_entry_zero(ours, theirs, fns) {
         Some("C08-entry-arc-zero-function-zeroed")
@@ -1044,7 +1107,7 @@ fn llvm_cov_on_bytes(dir: &Path, gcno: &[u8], gcda: &[u8]) -> Option<BTreeMap<St
 /// llvm-cov gcov on generated notes/data files: spanning-tree CFGs in the 408* layout with
 /// consistent flows (shapes clang would not produce: irreducible loops, parallel arcs, lines
 /// repeated inside a block, lines shared by distant blocks)
-fn synthetic_llvm_cov_stream(rep: &mut Report, rng: &mut Rng) {
+fn synthetic_llvm_cov_stream(rep: &mut Report, rng: &mut Rng, reqs: &mut Vec<String>, pend: &mut Vec<(String, Value, String)>) {
     let n = rep.budget(200, 8);
     let dir = rep.workdir.join("syn");
     for i in 0..n {
@@ -1155,8 +1218,16 @@ fn synthetic_llvm_cov_stream(rep: &mut Report, rng: &mut Rng) {
         };
         let case = json!({"op": "synthetic-llvm-cov", "gcno": hex(&gcno), "gcdas": [hex(&gbytes)], "index": i});
         rep.count("synthetic_llvm_cov.cases");
-        rep.evaluations += 1;
-        match run_compute(&gcno, &[gbytes.clone()], true) {
+        let r = run_compute(&gcno, &[gbytes.clone()], true);
+        // the same case through the model (so that a change of the cycle search is seen even on
+        // lines where a difference from llvm-cov is a known finding)
+        {
+            let rq = compute_req(&notes, &[&gcda], true);
+            rep.case(&rq, true);
+            reqs.push(rq);
+            pend.push((show_compute(&r), case.clone(), "compute".into()));
+        }
+        match r {
             Ok(rs) => {
                 let ours = of_results(&rs);
                 let fd = run_dump(&gcno, &[gbytes.clone()]).map(|d| dump_functions(&d)).unwrap_or_default();
@@ -1214,7 +1285,7 @@ fn run_inner(rep: &mut Report) {
     if have_tools {
         compiled_stream(rep, &mut rng, &mut reqs, &mut pend);
         let mut lrng = Rng::new(rep.seed ^ 0xC08_11);
-        synthetic_llvm_cov_stream(rep, &mut lrng);
+        synthetic_llvm_cov_stream(rep, &mut lrng, &mut reqs, &mut pend);
     } else {
         rep.notes.push("clang-14 / llvm-cov-14 not found: the llvm-cov comparison was NOT run".into());
         rep.count("program.tools_missing");
